@@ -33,7 +33,9 @@ FL = "f64 operators (Layer 0)"
 for n, c in [("ax_lt_irrefl", "!(a < a)"), ("ax_lt_trans", "a<b && b<c ==> a<c"), ("ax_lt_gt", "(a<b) == (b>a)"), ("ax_le_lt_trans", "<= / < transitivity mixes"),
              ("ax_eq_sym", "(a==b) == (b==a)"), ("ax_total_non_nan", "trichotomy without NaN; partial_cmp None with NaN"), ("ax_refl_and_bits", "a==a and bit-equal ==> == when not NaN"),
              ("ax_partial_cmp_def", "<, >, == agree with partial_cmp"), ("ax_div_unit", "0<=m<d ==> 0 <= m/d <= 1"), ("ax_add_mono", "x,y>=0 ==> x <= x+y, 0 <= x+y"),
-             ("ax_zero_refl", "0.0 == 0.0"), ("ax_ceil_cast_saturates", "x.ceil() as usize saturates")]:
+             ("ax_zero_refl", "0.0 == 0.0"), ("ax_ceil_cast_saturates", "x.ceil() as usize saturates"),
+             ("ax_eps_pos", "0 < f64::EPSILON finite, -inf < +inf"), ("ax_sub_add_pos", "finite e > 0, a not NaN ==> a - e <= a <= a + e (ax_sub_pos_le, ax_add_pos_ge)"),
+             ("ax_order_misc", "a<b or a<=b ==> neither is NaN; a<b ==> !(a>b); a<=b ==> !(a>b)")]:
     h(n, ["C09"], "proof", "complete", "EXACT axiom audit: " + c + "; all f64 bit patterns", [FL])
 
 
